@@ -44,7 +44,7 @@ def run(case):
     evals = 0
 
     def bad(kind, msg, **facts):
-        if sum(1 for v in viol if v["kind"] == kind) < 3:
+        if sum(1 for v in viol if v["kind"] == kind and v["facts"] == facts and v["msg"]) < 3:
             viol.append({"kind": kind, "msg": msg, "facts": facts})
         else:
             tags["more_" + kind] = tags.get("more_" + kind, 0) + 1
